@@ -150,9 +150,80 @@ def grid(econs=ECON_MODELS, pairs=PAIRS, ress=RES_MODELS, shapes=SHAPES_QUICK, r
         yield {'econ': e, 'enduse': eu, 'plant': pt, 'res': r, 'shape': list(s), 'redrill': rd}
 
 
+def sbt_base(econ=3, enduse=1, plant=2, shape=(6, 2, 1), config=5) -> OrderedDict:
+    """closed-loop (SBT, Reservoir Model 8) family: the geometry of the shipped example_SBT_Lo_T input, coarse accuracy (about 1 s per run
+    single-threaded), flow high enough for a non-zero net output; economic model / end-use / plant / shape selectable like base()."""
+    L, n, cy = shape
+    d = OrderedDict()
+    d['Reservoir Model'] = '8'
+    d['Reservoir Depth'] = '2.4 kilometer'
+    d['Gradient 1'] = '61.25'
+    d['Reservoir Volume Option'] = '4'
+    d['Reservoir Volume'] = '8136407202.64'
+    d['Reservoir Heat Capacity'] = '1112'
+    d['Reservoir Density'] = '2663'
+    d['Reservoir Thermal Conductivity'] = '2.25'
+    d['Lateral Endpoint Depth'] = '2.5 kilometer'
+    d['Lateral Inclination Angle'] = '89'
+    d['Junction Depth'] = '2.4 kilometer'
+    d['Vertical Section Length'] = '2.4 kilometer'
+    d['Number of Multilateral Sections'] = '2'
+    d['SBT Accuracy Desired'] = '1'
+    d['Lateral Spacing'] = '75'
+    d['Discretization Length'] = '250'
+    d['SBT Initial Timestep Count'] = '5'
+    d['SBT Initial to Final Timestep Transition'] = '10000'
+    d['SBT Final Timestep Count'] = '60'
+    d['Is AGS'] = 'True'
+    d['Well Geometry Configuration'] = str(config)
+    d['Number of Production Wells'] = '1'
+    d['Number of Injection Wells'] = '1'
+    d['Production Well Diameter'] = '8.5'
+    d['Injection Well Diameter'] = '8.5'
+    d['Nonvertical Wellbore Diameter'] = '0.216'
+    d['Production Flow Rate per Well'] = '20'
+    d['Reservoir Impedance'] = '1E-4'
+    d['Multilaterals Cased'] = 'False'
+    d['End-Use Option'] = str(enduse)
+    d['Power Plant Type'] = str(plant)
+    d['Plant Lifetime'] = str(L)
+    d['Time steps per year'] = str(n)
+    d['Construction Years'] = str(cy)
+    d['Ambient Temperature'] = '3'
+    d['Surface Temperature'] = '5'
+    d['Injection Temperature'] = '24'
+    d['Economic Model'] = str(econ)
+    if econ == 1:
+        d['Fixed Charge Rate'] = '0.09'
+    if econ == 2:
+        d['Discount Rate'] = '0.06'
+    d['Reservoir Stimulation Capital Cost'] = '0'
+    d['Exploration Capital Cost'] = '0'
+    d['Starting Electricity Sale Price'] = '0.19'
+    d['Ending Electricity Sale Price'] = '0.21'
+    d['Starting Heat Sale Price'] = '0.03'
+    d['Ending Heat Sale Price'] = '0.05'
+    d['SBT Generate Wireframe Graphics'] = 'False'
+    d['Print Output to Console'] = '0'
+    return d
+
+
+SBT_PAIRS = ((1, 1), (1, 2), (2, 9), (31, 1), (42, 2), (52, 1))
+
+
+def sbt_grid(econs=ECON_MODELS, pairs=SBT_PAIRS, configs=(1, 5), shapes=((6, 2, 1),)):
+    for e, (eu, pt), c, s in itertools.product(econs, pairs, configs, shapes):
+        yield {'special': 'sbt', 'econ': e, 'enduse': eu, 'plant': pt, 'config': c, 'shape': list(s)}
+
+
 def fam_base(f):
+    if f.get('special') == 'sbt':
+        return sbt_base(f.get('econ', 3), f.get('enduse', 1), f.get('plant', 2), tuple(f.get('shape', (6, 2, 1))), f.get('config', 5))
     return base(f['econ'], f['enduse'], f['plant'], f['res'], tuple(f['shape']), f.get('redrill', False))
 
 
 def fam_id(f):
+    if f.get('special'):
+        return '{0}-e{1}-u{2}-p{3}-c{4}-s{5}'.format(f['special'], f.get('econ', 3), f.get('enduse', 1), f.get('plant', 2), f.get('config', 5),
+                                                     'x'.join(map(str, f.get('shape', (6, 2, 1)))))
     return 'e{econ}-u{enduse}-p{plant}-r{res}-s{0}x{1}x{2}{3}'.format(*f['shape'], '-rd' if f.get('redrill') else '', **f)
